@@ -29,6 +29,7 @@ func (ex *Exec) call(fr *Frame, instr ssa.Instruction, c *ssa.CallCommon, st *St
 		args = append(args, ex.get(fr, a, st))
 	}
 	pos := instr.Pos()
+	ex.callAsserts(fr, c, args, st, reach, pos)
 	if c.IsInvoke() {
 		recv := ex.get(fr, c.Value, st)
 		return ex.invoke(fr, c, recv, args, st, reach, pos)
@@ -69,6 +70,40 @@ func (ex *Exec) call(fr *Frame, instr ssa.Instruction, c *ssa.CallCommon, st *St
 		return ex.applyContract(fr, cb, names, args, sig, ex.fn.Pkg, st, reach, pos, "callback "+pf.Name)
 	}
 	panic(unsupported("dynamic call through %s in %s", c.Value.Name(), fr.fn))
+}
+
+// callAsserts checks the "assert call <callee> :: expr" clauses of the function under verification at this call.
+func (ex *Exec) callAsserts(fr *Frame, c *ssa.CallCommon, args []Val, st *State, reach Term, pos token.Pos) {
+	if fr.contract == nil || len(fr.contract.CallAsserts) == 0 || ex.dry > 0 {
+		return
+	}
+	var name string
+	if c.IsInvoke() {
+		name = c.Method.FullName()
+	} else if f := c.StaticCallee(); f != nil {
+		name = f.String()
+	} else {
+		return
+	}
+	for _, ca := range fr.contract.CallAsserts {
+		if !strings.HasSuffix(name, ca.Callee) {
+			continue
+		}
+		if ex.assertHit == nil {
+			ex.assertHit = map[*CallAssert]bool{}
+		}
+		ex.assertHit[ca] = true
+		env := ex.loopEnv(fr, nil, st)
+		env.pos = pos
+		env.old.pos = pos
+		for i, a := range args {
+			env.vars[fmt.Sprintf("arg%d", i)] = a
+		}
+		g := ex.evalBool(ca.Clause.E, env)
+		o := ex.vc.oblige("assert", fr.name("assert:"+ca.Clause.Label), reach, g, ex.where(pos))
+		o.Descr = ca.Clause.Text
+		ex.vc.assume(Implies(reach, g))
+	}
 }
 
 func resultVal(vals []Val) Val {
